@@ -517,10 +517,19 @@ def b_list(x=()):
     return builtins.list(x)
 
 
+def _shim_of(f):
+    """a builtin handed over as a VALUE (map(list, xs), key=len) never went through the call rewriting T4: its shim stands in"""
+    table = {builtins.list: b_list, builtins.tuple: b_list, builtins.str: b_str, builtins.len: b_len, builtins.int: b_int, builtins.bool: b_bool}
+    try:
+        return table.get(f, f)
+    except TypeError:       # unhashable callable
+        return f
+
+
 def b_map(f, *its):
     COUNTS["builtin"] += 1
     if len(its) == 1 and isinstance(its[0], (SymSeq, SymPerms)):
-        return comp(f, its[0], kind="gen")
+        return comp(_shim_of(f), its[0], kind="gen")
     if any(_is_sym(x) for x in its):
         raise Unsupported("map over several / unmodelled symbolic iterables")
     return builtins.map(f, *its)
@@ -606,7 +615,11 @@ def b_permutations(xs, r=None):
     COUNTS["builtin"] += 1
     if isinstance(xs, SymSeq):
         if r is not None:
-            raise Unsupported("permutations(seq, r)")
+            # permutations(seq, len(seq)) is permutations(seq) (library contract): accepted when r IS the length of this sequence
+            import z3
+            full = isinstance(r, SymInt) and z3.simplify(r.t - z3.Int("len!" + xs.root)).eq(z3.IntVal(0))
+            if not full:
+                raise Unsupported("permutations(seq, r)")
         return SymPerms(xs)
     return itertools.permutations(xs, r)
 
